@@ -126,8 +126,10 @@ structure Cfg (σ : Type) where
   poll : Bool
   /-- repaired `Policy::unpin` (finding F4, fixed in /repo); `false` = the code before the fix -/
   fixF4 : Bool
-  /-- proposed repair of finding F15: the Poll trim visits the whole pinned region; `false` = the code as it is -/
-  fixTrim : Bool := false
+  /-- the Poll trim visits the whole pinned region once per maintenance round (the code since the fix of finding
+  F15, fixes/F15-poll-trim-scan.diff); `false` = the code before the fix (the loop stops at the first still-pinned
+  entry) -/
+  fixTrim : Bool := true
   /-- `MAINTENANCE_BATCH_SIZE` -/
   batch : Nat
   /-- capacity of the read-buffer shard of the calling thread -/
@@ -226,16 +228,18 @@ def unpin {σ} (cfg : Cfg σ) (pins : List Nat) (c : Core σ) (k : Nat) : Except
         let r := removeClosure cfg pins c k
         if r.2 then .ok { r.1 with lru := r.1.lru.remove k } else .ok r.1
 
-/-- The loop of `Policy::attempt_to_trim_overflowing_pinned` over the pinned region (oldest
-first); returns the new pinned region. -/
+/-- HISTORICAL (`Cfg.fixTrim = false`, the code before the fix of finding F15): the loop of
+`Policy::attempt_to_trim_overflowing_pinned` over the pinned region (oldest first) that stops at the first
+still-pinned entry; returns the new pinned region. -/
 def trimLoop {σ} (cfg : Cfg σ) (pins : List Nat) : List Nat → Core σ → List Nat × Core σ
   | [], c => ([], c)
   | k :: rest, c =>
     let r := removeClosure cfg pins c k
     if r.2 then trimLoop cfg pins rest r.1 else (rest ++ [k], r.1)
 
-/-- Proposed repair of finding F15 (fixes/F15-poll-trim-scan.diff): every entry of the pinned region is
-visited once; removed ones are popped, kept ones rotate to the head (so they keep their order). -/
+/-- `Policy::attempt_to_trim_overflowing_pinned` (since the fix of finding F15, `for _ in 0..pinned_len()`):
+every entry of the pinned region is visited once; removed ones are popped, kept ones rotate to the head (so
+they keep their order). -/
 def trimScan {σ} (cfg : Cfg σ) (pins : List Nat) : List Nat → Core σ → List Nat × Core σ
   | [], c => ([], c)
   | k :: rest, c =>
